@@ -75,6 +75,9 @@ def run(tier, seed):
             s.roots_mode = ("rp", "none", "several")[i % 3] if fmt in ("packed", "fido-u2f", "tpm") else (("rp", "extra-unrelated", "rp-only")[i % 3] if fmt in regsim.X5C_FORMATS else "rp")
             if fmt == "tpm":
                 s.k["tpm_name_alg"] = ("SHA256", "SHA1", "SHA384", "SHA512")[i % 4]
+            if fmt in regsim.X5C_FORMATS and i % 5 in (2, 4):
+                # certificates signed over another digest than SHA-256 (attestation CAs of 2014-2016 signed over SHA-1): the default verification parameters accept them
+                s.k["chain_sig_hash"] = ("sha1", "sha384", "sha512", "sha1", "sha224")[(i // 5) % 5]
             if fmt in regsim.X5C_FORMATS and i % 4 in (1, 2):
                 # the attestation certificate's EC key written as a compressed point: the same key in another valid SubjectPublicKeyInfo encoding
                 s.k["leaf_spki_compressed"] = True
@@ -154,6 +157,22 @@ def run(tier, seed):
         import hashlib as _hl
         a.sig = rc.sign(a.ad + _hl.sha256(a.cdj).digest())
         A.run_case(impl.AuthPolicy(pol0.challenge, pol0.rp_id, pol0.origin, rc.cose_bytes, pol0.count, False), a, "record", "accept", f"conformant-assertion rsa-exponent-{e}")
+    # RSA credentials whose primes have arithmetic structure (the shape ROCA detectors fingerprint; primes close to one another): weak keys, conformant ceremonies
+    for structure in ("roca", "close-primes"):
+        rc = authsim.rsa_cred_structured(structure)
+        for fmt in ("none", "packed-self"):
+            s = regsim.RScn(fmt, "RS256")
+            s.k["cose_bytes"] = rc.cose_bytes
+            if fmt == "packed-self":
+                s.k["signer"] = rc
+            pd, reg = regsim.build(s)
+            reg.cred = rc
+            B.run_case(regrun.policy_of(pd), reg, "dict", "accept", f"conformant/{fmt} rsa-primes-{structure}", scn=s)
+        sa = authcat.Scn("RS256")
+        pol0, a = sa.build()
+        import hashlib as _hl
+        a.sig = rc.sign(a.ad + _hl.sha256(a.cdj).digest())
+        A.run_case(impl.AuthPolicy(pol0.challenge, pol0.rp_id, pol0.origin, rc.cose_bytes, pol0.count, False), a, "record", "accept", f"conformant-assertion rsa-primes-{structure}")
     # every TCG vendor id
     for v in TCG_VENDORS:
         s = regsim.RScn("tpm", "RS256", "RS256")
